@@ -29,7 +29,7 @@ RULE = ("exhaustive: every SET of n hits drawn from a small alphabet = all inter
         "chained hits all occur.  quick: refine_hmmscan_results n<=3 on q0 (6 points, 36,050 sets), q1/q2/q5 (5 points, "
         "10,700 each), q3 (4 points, 3 scores, 7,806) and n=4 on q4 (4 points, 10,626), both modes; "
         "hmmer.remove_overlapping n<=3 on h0/h1/h2 (36,050 + 2 x 10,700); filter_results/filter_result_multiple n<=3 on "
-        "f0/f2, n<=4 on f1 (7,806 + 2,324 + 12,950); HMMResult.merge on 450 ordered pairs, remove_incomplete on 3,333 "
+        "f0/f1/f2 (7,806 + 2,324 + 2,324) and n=4 on f3 (1,820); HMMResult.merge on 450 ordered pairs, remove_incomplete on 3,333 "
         "lists x thresholds.  For every set EVERY permutation of the input list is run (and the hits delivered as one "
         "QueryResult each); q0, h1 and f1 (n<=3) are also run in child processes with PYTHONHASHSEED 0..7.  thorough: "
         "n=4 over the 6-point grids (all permutations for r0s, 6 of 24 elsewhere), three scores for n<=3, seeds 0..15, "
@@ -353,7 +353,7 @@ def _emit(run: Any, clause: str, problems: list[tuple[str, dict[str, Any]]], cas
     chosen: Optional[tuple[str, dict[str, Any], str]] = None
     for detail, observed in problems:
         failing = dict(case)
-        failing["observed"] = observed
+        failing["observed"] = dict(observed, clause=clause)
         fid = classify(clause, failing)
         if fid is None:
             chosen = (clause, failing, detail)
@@ -744,13 +744,14 @@ def shards(tier: str, seed: int) -> list:
         jobs = [{"fam": "R", "cfg": "q0", "sizes": [1, 2, 3]}, {"fam": "H", "cfg": "h1", "sizes": [1, 2, 3]},
                 {"fam": "F", "cfg": "f1", "sizes": [1, 2, 3]}]
         out += [{"fam": "S", "jobs": jobs, "chunk": i, "of": 4, "seeds": list(range(8))} for i in range(4)]
-        out += split("R", "q0", [1, 2, 3], 6, "all")
+        out += split("R", "q0", [1, 2, 3], 8, "all")
         out += split("R", "q1", [1, 2, 3], 2, "all") + split("R", "q2", [1, 2, 3], 2, "all")
         out += split("R", "q3", [1, 2, 3], 2, "all") + split("R", "q4", [4], 4, "all")
         out += split("R", "q5", [1, 2, 3], 2, "all")
-        out += split("H", "h0", [1, 2, 3], 4, "all") + split("H", "h1", [1, 2, 3], 1, "all")
-        out += split("H", "h2", [1, 2, 3], 1, "all")
-        out += split("F", "f0", None, 1, "all") + split("F", "f1", None, 3, "all") + split("F", "f2", None, 1, "all")
+        out += split("H", "h0", [1, 2, 3], 4, "all") + split("H", "h1", [1, 2, 3], 2, "all")
+        out += split("H", "h2", [1, 2, 3], 2, "all")
+        out += split("F", "f0", None, 2, "all") + split("F", "f1", [1, 2, 3], 1, "all") + split("F", "f3", None, 1, "all")
+        out += split("F", "f2", None, 1, "all")
         out += [{"fam": "K"}]
         return out
     # thorough (cheap exhaustive families and the sampled one first: a truncated run starves the big ones last)
@@ -821,4 +822,14 @@ def replay(case: dict[str, Any]) -> list[str]:
             outs.setdefault(run_child("bounded.C13", "child_eval", arg, seed)[0][0], []).append(seed)
         if len(outs) > 1:
             col.failed.append(f"{SEED_CLAUSE[fn]}: {outs}"[:600])
-    return col.failed
+    return _only_recorded_clause(case, col.failed)
+
+
+def _only_recorded_clause(case: dict[str, Any], failed: list[str]) -> list[str]:
+    """ a case stored from a failure carries the clause it failed at (observed.clause): such a case - in
+        particular the witness of a finding - is judged at that clause only; other clauses failing on the
+        same input belong to other findings and have their own witnesses """
+    wanted = _observed(case, "clause")
+    if not isinstance(wanted, str):
+        return failed
+    return [text for text in failed if text.startswith("harness error") or _base(text.split(": ", 1)[0]) == wanted]
